@@ -42,6 +42,14 @@ func c14gen(g *gen, tier string, w *bufio.Writer) {
 	if tier == "thorough" {
 		secs, workers = 120, 8
 	}
+	if tier == "search" {
+		// a lock theorem or the lock table no longer checks: look for a schedule that hangs or races
+		// with many more lookups in flight than the iterator pool holds
+		for i := 0; i < 2; i++ {
+			fmt.Fprintf(w, "race rocksdb %d %d\n", 25, 48+g.intn(17))
+		}
+		return
+	}
 	for _, b := range []string{"cdb", "rocksdb"} {
 		fmt.Fprintf(w, "race %s %d %d\n", b, secs, workers+g.intn(3))
 	}
